@@ -4,8 +4,9 @@
 (* PathMatch.tla, and the laws of PathMatch.tla.  One TLC run = one step,   *)
 (* selected by the environment variable STEP:                               *)
 (*                                                                         *)
-(*  laws  : the laws L1-L5 of PathMatch.tla for all strings within the      *)
-(*          bounds of IOEnv.PARAMS                                          *)
+(*  laws  : the laws of PathMatch.tla: L1, L2 for all strings over the      *)
+(*          pattern alphabet up to length lawn+2, L3-L5 for all (pattern,   *)
+(*          path, base) with both strings up to length lawn                 *)
 (*  gen   : enumerates the case space - every pattern over the pattern      *)
 (*          alphabet up to the pattern bound, every path over the path      *)
 (*          alphabet up to the path bound - and writes both lists; a case   *)
@@ -42,19 +43,24 @@ Gen(dummy) ==
 InJudge == IOEnv.STEP = "judge"
 Pats  == IF InJudge THEN ndJsonDeserialize(IOEnv.PATS) ELSE <<>>
 Paths == IF InJudge THEN ndJsonDeserialize(IOEnv.PATHS) ELSE <<>>
-\* rows [p, b, reg, dir]: for pattern p and base b, the indices of the paths reported as matching per mode
+\* rows [p, b, reg, dir, split]: for pattern p and base b, the indices of the paths reported as matching per
+\* mode; split: cases in which the two entry points of the real matcher disagreed with each other
 Rows  == IF InJudge THEN ndJsonDeserialize(IOEnv.OBS) ELSE <<>>
 NB == Len(Bases)
 NT == Len(Paths)
 
-\* per base: the PathInfo of every path, the distinct ones, and the index of each path's info among them
+\* (TLC evaluates the argument-less definitions below once, eagerly; TLCEval forces the tables)
+\* per base: the PathInfo of every path, the distinct ones, the index of each path's info among them, and
+\* the paths that share each distinct info
 TI == TLCEval([b \in 1..NB |-> [j \in 1..NT |-> PathInfo(Paths[j].s, Bases[b])]])
 DistTI == TLCEval([b \in 1..NB |-> SetToSeq(ToSet(TI[b]))])
 TIdx == TLCEval([b \in 1..NB |-> [j \in 1..NT |-> CHOOSE d \in DOMAIN DistTI[b] : DistTI[b][d] = TI[b][j]]])
+Spelt == TLCEval([b \in 1..NB |-> [d \in DOMAIN DistTI[b] |-> {j \in 1..NT : TIdx[b][j] = d}]])
 
-\* the distinct (PatInfo, base) of the rows and the verdict table of each
+\* the distinct (PatInfo, base) of the rows
 RowPI(o) == [pi |-> PatInfo(Pats[o.p].s, Bases[o.b]), b |-> o.b]
 DistPI == {RowPI(Rows[r]) : r \in DOMAIN Rows}
+
 \* tabulated Regions and InLang: every string in which a match is looked for, its regions, and for every
 \* canonical pattern of the rows the regions that are in its language
 HayOf(tc) == {tc, DirOf(tc), DirOfSep(tc)}
@@ -63,21 +69,32 @@ RegTab == TLCEval([h \in Hay |-> [real \in BOOLEAN |-> [lax \in BOOLEAN |-> Regi
 AllRegions == TLCEval(UNION {RegTab[h][TRUE][TRUE] \cup RegTab[h][FALSE][TRUE] : h \in Hay})
 LangTab == TLCEval([pc \in {x.pi.pc : x \in DistPI} |-> {r \in AllRegions : InLang(pc, r)}])
 TabRegions(t, real, lax) == RegTab[t][real][lax]
-TabIn(pc, r) == r \in LangTab[pc]
 
+\* the verdict of every distinct (pattern info, base) against every distinct path info, per mode, and the
+\* (indices of the) paths that must match
+VerdictRow(x, mode) ==
+  LET lang == LangTab[x.pi.pc]
+      TabIn(pc, r) == r \in lang
+  IN [d \in DOMAIN DistTI[x.b] |-> VerdictWith(TabRegions, TabIn, x.pi, DistTI[x.b][d], mode)]
+MustSet(b, v) == UNION {Spelt[b][d] : d \in {e \in DOMAIN v : v[e] = "T"}}
 Table == TLCEval([x \in DistPI |->
-            LET reg == [d \in DOMAIN DistTI[x.b] |-> VerdictWith(TabRegions, TabIn, x.pi, DistTI[x.b][d], "reg")]
-            IN [reg |-> reg,
-                dir |-> IF x.pi.trail THEN [d \in DOMAIN DistTI[x.b] |-> VerdictWith(TabRegions, TabIn, x.pi, DistTI[x.b][d], "dir")] ELSE reg]])
+            LET reg == VerdictRow(x, "reg")
+                dir == IF x.pi.trail THEN VerdictRow(x, "dir") ELSE reg
+                regT == MustSet(x.b, reg)
+            IN [reg |-> reg, dir |-> dir, regT |-> regT, dirT |-> IF x.pi.trail THEN MustSet(x.b, dir) ELSE regT]])
 
-BadOf(o, mode, got, want) ==
-  {[p |-> Pats[o.p].s, t |-> Paths[j].s, base |-> Bases[o.b], mode |-> mode,
-    got |-> (j \in got), want |-> want[TIdx[o.b][j]], pi |-> o.p, ti |-> j, bi |-> o.b] :
-     j \in {k \in 1..NT : LET w == want[TIdx[o.b][k]] IN w # "Open" /\ ((w = "T") # (k \in got))}}
+\* a row and a mode disagree with the specification on: miss = paths that must match and did not,
+\* extra = paths that must not match and did
+Disagreement(o, mode, got, want, wantT) ==
+  [p |-> o.p, b |-> o.b, mode |-> mode,
+   miss  |-> SetToSeq(wantT \ got),
+   extra |-> SetToSeq({j \in got : want[TIdx[o.b][j]] = "F"})]
 
 BadOfRow(o) ==
   LET tab == Table[RowPI(o)] IN
-  BadOf(o, "reg", ToSet(o.reg), tab.reg) \cup BadOf(o, "dir", ToSet(o.dir), tab.dir)
+  {y \in {Disagreement(o, "reg", ToSet(o.reg), tab.reg, tab.regT),
+          Disagreement(o, "dir", ToSet(o.dir), tab.dir, tab.dirT)} : y.miss # <<>> \/ y.extra # <<>>}
+    \cup (IF o.split = <<>> THEN {} ELSE {[p |-> o.p, b |-> o.b, mode |-> "split", miss |-> <<>>, extra |-> <<o.split[1][1]>>]})
 
 Bad == UNION {BadOfRow(Rows[r]) : r \in DOMAIN Rows}
 
@@ -92,7 +109,7 @@ StatOf(x) ==
    open |-> CountOf(tab.reg, "Open") + (IF x.pi.trail THEN CountOf(tab.dir, "Open") ELSE 0)]
 
 \* raw counts over all cases of the rows (every path, both modes)
-Mult == TLCEval([b \in 1..NB |-> [d \in DOMAIN DistTI[b] |-> Cardinality({j \in 1..NT : TIdx[b][j] = d})]])
+Mult == TLCEval([b \in 1..NB |-> [d \in DOMAIN DistTI[b] |-> Cardinality(Spelt[b][d])]])
 \* sum of f over lo..hi by halving (TLC's evaluation stack is shallow)
 RECURSIVE SumRange(_, _, _)
 SumRange(f(_), lo, hi) == IF lo > hi THEN 0 ELSE IF lo = hi THEN f(lo)
@@ -103,11 +120,12 @@ RowCount(r, v) ==
       W(d) == (IF tab.reg[d] = v THEN Mult[b][d] ELSE 0) + (IF tab.dir[d] = v THEN Mult[b][d] ELSE 0)
   IN SumRange(W, 1, Len(DistTI[b]))
 RawCount(v) == LET R(r) == RowCount(r, v) IN SumRange(R, 1, Len(Rows))
+NBad == LET N(k) == Len(SetToSeq(Bad)[k].miss) + Len(SetToSeq(Bad)[k].extra) IN SumRange(N, 1, Cardinality(Bad))
 
 Judge(dummy) ==
          /\ ndJsonSerialize(IOEnv.OUT, SetToSeq(Bad))
          /\ ndJsonSerialize(IOEnv.STATS, SetToSeq({StatOf(x) : x \in DistPI}))
-         /\ PrintT(<<"JUDGE", "ROWS", Len(Rows), "CASES", 2 * NT * Len(Rows), "BAD", Cardinality(Bad),
+         /\ PrintT(<<"JUDGE", "ROWS", Len(Rows), "CASES", 2 * NT * Len(Rows), "BAD", NBad,
                      "T", RawCount("T"), "F", RawCount("F"), "OPEN", RawCount("Open")>>)
 
 -----------------------------------------------------------------------------
@@ -122,12 +140,14 @@ Laws(dummy) ==
   LET P == Mine(LawP(0))
       T == LawT(0)
       B == LawB(0)
-  IN /\ Holds("L1 canonical form", Refuting1(LawCanon, Mine(Strings(ToSet(Params.pa), Params.lawn + 2))))
-     /\ Holds("L2 re-spelling", Refuting3(LawRespell, P, T, B))
+      Long == Mine(Strings(ToSet(Params.pa), Params.lawn + 2))
+  IN /\ Holds("L1 canonical form", Refuting1(LawCanon, Long))
+     /\ Holds("L2 re-spelling of paths", Refuting2(LawRespellPath, Long, B))
+     /\ Holds("L2 re-spelling of patterns", Refuting2(LawRespellPat, Long, B))
      /\ Holds("L3 widening", Refuting3(LawWiden, P, T, B))
      /\ Holds("L4 literal patterns", Refuting3(LawLiteral, P, T, B))
      /\ Holds("L5 below a matched directory", Refuting3(LawBelow, P, T, B))
-     /\ PrintT(<<"LAWS", Cardinality(P) * Cardinality(T) * Cardinality(B)>>)
+     /\ PrintT(<<"LAWS", "STRINGS", Cardinality(Long), "TRIPLES", Cardinality(P) * Cardinality(T) * Cardinality(B)>>)
 
 ASSUME CASE IOEnv.STEP = "gen"   -> Gen(0)
          [] IOEnv.STEP = "judge" -> Judge(0)
